@@ -168,10 +168,13 @@ PROPS["C20"] = {
     "rule": "real iodined -b <port> (plain and '*.' wildcard domains, IPv4 and IPv6 listeners); 1-6 asker hosts send 1-200 queries for names outside and near the tunnel domain (suffix without label boundary, one label more/less, "
             "63-octet labels, 253-character names, case variants of the domain) with ids drawn from pools of 4..60000 values (reuse, id 0, more than 16 outstanding); a model local DNS on 127.0.0.1:<port> replies after 50 us..4 s "
             "(reordering), not at all, twice, or with ids nobody used. Oracle (ledger of the 16 most recent forwards): each non-tunnel query yields exactly one datagram to the local port with the same id, name and type, tunnel names none; "
-            "a local reply whose id is unique among the remembered 16 goes unchanged, exactly once, to that asker; with reused ids only to an asker that used the id; an id matching none of the 16 reaches nobody. "
+            "a local reply whose id is unique among the remembered 16 goes unchanged, exactly once, to that asker; with reused ids only to an asker that used the id; an id matching none of the 16 reaches nobody; datagrams from the local port too short to carry an id (1-11 octets) reach nobody. A second job adds question names that have a '.' or a 0 octet inside a label, compared label by label (open known finding). "
             "non-trivial = >=1 query forwarded and >=1 reply relayed; distinct = distinct run fingerprints",
     "jobs": [
         {"scen": "forward", "sets": {}, "quick": 6000, "thorough": 400000},
+        # the open known finding (known_findings.json): question names with a '.' or a 0 octet inside a label (legal DNS; DNS-SD instance names) are
+        # relayed under another name or not at all - iodined holds names as dotted C strings
+        {"scen": "forward", "sets": {"oddlabels": True}, "quick": 400, "thorough": 20000},
     ],
     "expect_probes": ["c20.asked", "c20.asked_v6", "c20.forwarded", "c20.relayed", "c20.relay_ok", "c20.reply_unknown_id", "c20.reply_id_ambiguous", "c20.ring_wrapped", "c20.tunnel_names"],
 }
